@@ -242,6 +242,23 @@ func c20Pairs(w *core.W, j int) {
 				equalSet = append(equalSet, b)
 			}
 		}
+		// owners written with raw (unescaped) octets above 0x7F that differ from each other: no case
+		// folding applies to them, whatever Unicode thinks of the byte sequences
+		if l.Type != 41 && l.Type != 250 {
+			ra := fromWire(base)
+			if ra != nil {
+				for _, pr := range [][2]string{{"\xff", "\xfe"}, {"\xe9", "\xc9"}, {"\xe2\x84\xaa", "k"}, {"\xc5\xbf", "s"}, {"\xc3\x89", "\xc3\xa9"}} {
+					x, y := dns.Copy(ra), dns.Copy(ra)
+					x.Header().Name = pr[0] + "raw.example."
+					y.Header().Name = pr[1] + "raw.example."
+					w.Eval(1)
+					w.Cover("variant", "owner-raw-8bit")
+					if dns.IsDuplicate(x, y) || dns.IsDuplicate(y, x) {
+						w.Violation("C20/is-true-want-false/"+l.Name+"/owner-raw-8bit", fmt.Sprintf("records owned by %q and %q are reported as duplicates", x.Header().Name, y.Header().Name), map[string]any{"type": l.Name})
+					}
+				}
+			}
+		}
 		// owners (and embedded names) that differ in one octet by 0x20 where neither octet is a letter
 		if l.Type != 41 && l.Type != 250 {
 			p1 := cloneRec(base)
@@ -367,6 +384,14 @@ func c20Dedup(w *core.W, j int) {
 		}
 		if len(list) == 0 {
 			continue
+		}
+		// the very same record value may stand in the list more than once (a section appended to itself,
+		// a cached record referenced twice)
+		if k%2 == 1 {
+			for x := g.R.IntN(4); x > 0; x-- {
+				list = append(list, list[g.R.IntN(len(list))])
+			}
+			w.Count("dedup_lists_with_repeated_pointers", 1)
 		}
 		// reference: stable first-occurrence filter, survivor carries the minimum TTL of its group
 		type grp struct {
